@@ -43,7 +43,15 @@ def setup(u, limit_kind=None):
         lim = u.int("iteration_limit")
         u.assume(lim >= 0)
         params.fields["iteration_limit"] = lim
-    solver = u.obj("pygradflow.solver.Solver", params=params, problem=problem)
+    # the solver object as the real constructor leaves it (a change that consults the transformation / scaling in the
+    # termination test must meet real objects, not a missing attribute)
+    from .c04_transform import mk_scaling
+
+    scaling = None
+    if u.path.choose("custom scaling in use"):
+        scaling, _vw, _cw, _ow = mk_scaling(u, problem.fields["__n__"], problem.fields["num_cons"])
+    transform = u.obj("pygradflow.transform.Transformation", orig_problem=Opaque("user problem"), params=params, scaling=scaling, trans_problem=problem, evaluator=Opaque("evaluator"))
+    solver = u.obj("pygradflow.solver.Solver", params=params, problem=problem, orig_problem=Opaque("user problem"), transform=transform, evaluator=Opaque("evaluator"), callbacks=Opaque("callbacks"))
     iteration = u.int("iteration")
     u.assume(iteration >= 0)
     timer = u.construct("pygradflow.timer.Timer", params.fields["time_limit"])
